@@ -135,6 +135,14 @@ def St.endBlock (sB : St) (h : Nat) (bt : Option VT) (labels : List Label) : St 
 
 abbrev Err := String
 
+/-- one `case` of the `switch` a br_table becomes -/
+def brTableStep (acc : Except Err (St × List (Option (Slot × Slot) × Nat))) (l : Nat) :
+    Except Err (St × List (Option (Slot × Slot) × Nat)) := do
+  let (sa, cs) ← acc
+  let some lab := sa.label l | .error "br_table: label"
+  let some (sb, cp) := gotoCopy sa lab | .error "br_table: stack"
+  .ok (sb, cs ++ [(cp, lab.index)])
+
 mutual
 /-- returns (state, statements, dead?) -/
 def compileSeq (ctx : Ctx) (s : St) : List EInstr → Except Err (St × List MStmtC × Bool)
@@ -210,16 +218,19 @@ def compileInstr (ctx : Ctx) (s : St) : EInstr → Except Err (St × List MStmtC
   | .globalSet g => do
     let some t := ctx.globalTypes[g]? | .error "global index"
     let some s0 := s.top 0 | .error "global.set: stack"
+    if s.height < s.base + 1 then .error "global.set: pops below the enclosing label (invalid module)" else
     .ok ((s.declare ⟨t, s0.idx⟩).drop 1, [.globalSet g ⟨t, s0.idx⟩], false)
   | .load opcode off => do
     let some (fn, rt) := lookupAssoc Gen.loadTable opcode | .error s!"unsupported load {opcode}"
     let some s0 := s.top 0 | .error "load: stack"
+    if s.height < s.base + 1 then .error "load: pops below the enclosing label (invalid module)" else
     let dst : Slot := ⟨rt, s0.idx⟩
     .ok (((s.declare dst).drop 1).push rt, [.load dst fn s0 off], false)
   | .store opcode off => do
     let some fn := lookupAssoc Gen.storeTable opcode | .error s!"unsupported store {opcode}"
     let some s0 := s.top 0 | .error "store: stack"
     let some s1 := s.top 1 | .error "store: stack"
+    if s.height < s.base + 2 then .error "store: pops below the enclosing label (invalid module)" else
     .ok (s.drop 2, [.store fn s1 off s0], false)
   | .memorySize =>
     let s' := s.push .i32
@@ -227,21 +238,25 @@ def compileInstr (ctx : Ctx) (s : St) : EInstr → Except Err (St × List MStmtC
     .ok (s'.declare dst, [.memSize dst], false)
   | .memoryGrow => do
     let some s0 := s.top 0 | .error "memory.grow: stack"
+    if s.height < s.base + 1 then .error "memory.grow: pops below the enclosing label (invalid module)" else
     .ok (s.declare ⟨.i32, s0.idx⟩, [.memGrow ⟨.i32, s0.idx⟩ s0], false)
   | .memoryCopy => do
     let some s0 := s.top 0 | .error "memory.copy: stack"
     let some s1 := s.top 1 | .error "memory.copy: stack"
     let some s2 := s.top 2 | .error "memory.copy: stack"
+    if s.height < s.base + 3 then .error "memory.copy: pops below the enclosing label (invalid module)" else
     .ok (s.drop 3, [.memCopy s2 s1 s0], false)
   | .memoryFill => do
     let some s0 := s.top 0 | .error "memory.fill: stack"
     let some s1 := s.top 1 | .error "memory.fill: stack"
     let some s2 := s.top 2 | .error "memory.fill: stack"
+    if s.height < s.base + 3 then .error "memory.fill: pops below the enclosing label (invalid module)" else
     .ok (s.drop 3, [.memFill s2 s1 s0], false)
   | .memoryInit seg => do
     let some s0 := s.top 0 | .error "memory.init: stack"
     let some s1 := s.top 1 | .error "memory.init: stack"
     let some s2 := s.top 2 | .error "memory.init: stack"
+    if s.height < s.base + 3 then .error "memory.init: pops below the enclosing label (invalid module)" else
     .ok (s.drop 3, [.memInit seg s2 s1 s0], false)
   | .dataDrop _ => .ok (s, [], false)          -- decoded and reported as unimplemented; nothing emitted
   | .block bt body => do
@@ -295,13 +310,7 @@ def compileInstr (ctx : Ctx) (s : St) : EInstr → Except Err (St × List MStmtC
     let some c := s.top 0 | .error "br_table: stack"
     if c.ty ≠ .i32 ∨ s.height < s.base + 1 then .error "br_table: condition type / pops below label (invalid module)" else
     let s0 := s.drop 1
-    let step (acc : Except Err (St × List (Option (Slot × Slot) × Nat))) (l : Nat) :
-        Except Err (St × List (Option (Slot × Slot) × Nat)) := do
-      let (sa, cs) ← acc
-      let some lab := sa.label l | .error "br_table: label"
-      let some (sb, cp) := gotoCopy sa lab | .error "br_table: stack"
-      .ok (sb, cs ++ [(cp, lab.index)])
-    let (s1, cases) ← ls.foldl step (.ok (s0, []))
+    let (s1, cases) ← ls.foldl brTableStep (.ok (s0, []))
     let some labD := s1.label d | .error "br_table: label"
     let some (s2, cpD) := gotoCopy s1 labD | .error "br_table: stack"
     .ok (s2, [.switchGoto c cases (cpD, labD.index)], true)
@@ -313,7 +322,7 @@ def compileInstr (ctx : Ctx) (s : St) : EInstr → Except Err (St × List MStmtC
     let some ti := ctx.funcTypeIdx[f]? | .error "call: function index"
     let some ft := ctx.types[ti]? | .error "call: type index"
     let n := ft.params.length
-    if s.height < n then .error "call: stack" else
+    if s.height < s.base + n then .error "call: stack / pops below the enclosing label (invalid module)" else
     let base := s.height - n
     let args : List Slot := (ft.params.zipIdx).map fun (t, k) => ⟨vtOfW t, base + k⟩
     match ft.results with
@@ -326,7 +335,7 @@ def compileInstr (ctx : Ctx) (s : St) : EInstr → Except Err (St × List MStmtC
     let some ft := ctx.types[ty]? | .error "call_indirect: type index"
     let n := ft.params.length
     let some idx := s.top 0 | .error "call_indirect: stack"
-    if s.height < n + 1 then .error "call_indirect: stack" else
+    if s.height < s.base + n + 1 then .error "call_indirect: stack / pops below the enclosing label (invalid module)" else
     let base := s.height - 1 - n
     let args : List Slot := (ft.params.zipIdx).map fun (t, k) => ⟨vtOfW t, base + k⟩
     match ft.results with
